@@ -999,7 +999,13 @@ def explore_config(cfg):
                                       signature=env.signature))
 
     stop = cfg.get('stop_on_violation', True)
+    import time as _rt
+    t_end = _rt.time() + cfg['budget_s'] if cfg.get('budget_s') else None
     while front:
+        if t_end is not None and _rt.time() > t_end:
+            res['capped'] = True          # reported, never silently ignored
+            res['budget_hit'] = cfg['budget_s']
+            break
         hist = front.popleft()
         res['max_depth'] = max(res['max_depth'], len(hist))
         if len(hist) >= depth:
